@@ -1,7 +1,7 @@
 (* C02 - a shape validates exactly the focus nodes its target declarations select. *)
-From Coq Require Import List NArith Bool Relations.
+From Coq Require Import List NArith Bool Relations String.
 From Verif Require Import Base.SetList Base.Terms Base.Vocab Paths.Path Shapes.AST Shapes.Leaf Shapes.Eval
-  Shapes.TargetProofs.
+  Shapes.TargetProofs Closure.Worklist Closure.WorklistProofs Closure.ClosureModel Gen.T4.
 Import ListNotations.
 
 (* The focus nodes resolved for a shape (the model of Shape.focus_nodes) are, without
@@ -29,6 +29,30 @@ Theorem C02_implicit_class : forall sg s,
   implicit_class sg s = true <-> shacl_instance sg (sid s) t_rdfs_Class.
 Proof. exact implicit_class_spec. Qed.
 Print Assumptions C02_implicit_class.
+
+(* Tie A for the subclass closure: the work-list programs generated from pyshacl/rdfutil/closure.py (as used
+   by Shape.focus_nodes and sh:class) terminate on every graph and return, without duplicates, exactly the
+   model's subclasses / superclasses - chains of any length, diamonds, cycles, any enumeration order. *)
+Theorem C02_closure_code_subclasses : forall g c,
+  exists r, run_on transitive_subjects_prog g t_subClassOf c = Some r /\ NoDup r /\ forall y, In y r <-> In y (subclasses g c).
+Proof. exact subjects_closure_is_subclasses. Qed.
+Print Assumptions C02_closure_code_subclasses.
+
+Theorem C02_closure_code_superclasses : forall g t,
+  exists r, run_on transitive_objects_prog g t_subClassOf t = Some r /\ NoDup r /\ forall y, In y r <-> In y (superclasses g t).
+Proof. exact objects_closure_is_superclasses. Qed.
+Print Assumptions C02_closure_code_superclasses.
+
+(* every call site of the two functions walks rdfs:subClassOf *)
+Example C02_closure_call_sites :
+  forallb (fun x => String.eqb (snd x) "RDFS_subClassOf") closure_call_sites = true /\ closure_call_sites <> [].
+Proof. split; [vm_compute; reflexivity|discriminate]. Qed.
+
+Example C02_closure_nonvacuous :
+  run_on transitive_subjects_prog
+    [(IRI 2, t_subClassOf, IRI 1); (IRI 4, t_subClassOf, IRI 1); (IRI 2, t_subClassOf, IRI 4); (IRI 5, t_subClassOf, IRI 4);
+     (IRI 1, t_subClassOf, IRI 5)] t_subClassOf (IRI 1) = Some [IRI 1; IRI 2; IRI 4; IRI 5].
+Proof. vm_compute. reflexivity. Qed.
 
 (* Non-vacuity: a subclass cycle, an absent target node, a literal object. *)
 Definition ex_g : graph :=
